@@ -13,6 +13,7 @@ import (
 	"github.com/opencontainers/go-digest"
 	ocispec "github.com/opencontainers/image-spec/specs-go/v1"
 	"oras.land/oras-go/v2/content/oci"
+	"oras.land/oras-go/v2/errdef"
 	orasreg "oras.land/oras-go/v2/registry"
 	"oras.land/oras-go/v2/registry/remote"
 	"oras.land/oras-go/v2/zsim/simrt"
@@ -33,6 +34,9 @@ type ListParams struct {
 	Pad        int        `json:"pad,omitempty"`
 	FilterAT   string     `json:"filter_at,omitempty"`
 	NoAPI      bool       `json:"no_api,omitempty"` // referrers via tag schema
+	// ocitags: tasks that list while the tags are being set and removed, and the tags removed again
+	Listers int   `json:"listers,omitempty"`
+	Untag   []int `json:"untag,omitempty"`
 }
 
 type listProp struct{}
@@ -42,7 +46,7 @@ func init() { register(&listProp{}) }
 func (p *listProp) ID() string { return "C15" }
 
 func (p *listProp) Rule() string {
-	return "scenario = item list + client page size + server page cap + Link header form + last + callback failure at page j + artifact-type filter applied by the server (header/annotation) or not + document padding around MaxMetadataBytes, for Tags, Repositories, Referrers (API and tag schema) and the OCI-layout Tags listing; non-trivial = the result spans >=2 pages, or a filter/limit/last/callback failure is in play; distinct = distinct (request trace hash, delivered list hash)"
+	return "scenario = item list + client page size + server page cap + Link header form + last + callback failure at page j + artifact-type filter applied by the server (header/annotation) or not + document padding around MaxMetadataBytes, for Tags, Repositories, Referrers (API and tag schema) and the OCI-layout Tags listing (half of those with 1-2 tasks listing while the tags are set and removed: each such listing is sorted, duplicate-free, holds every tag whose Tag had returned and whose Untag had not begun, and nothing that was never set or whose Untag had returned); non-trivial = the result spans >=2 pages, or a filter/limit/last/callback failure is in play; distinct = distinct (request trace hash, delivered list hash)"
 }
 
 func (p *listProp) Components() map[string][]string {
@@ -115,6 +119,12 @@ func (p *listProp) Gen(r *Rand, tier string, idx int) any {
 	if r.Chance(0.2) {
 		lp.FailAtPage = r.Range(1, 3)
 	}
+	if lp.Kind == "ocitags" && len(lp.Items) > 0 && r.Chance(0.5) {
+		lp.Listers = r.Range(1, 2)
+		for k := r.Range(0, 3); k > 0; k-- {
+			lp.Untag = append(lp.Untag, r.Intn(len(lp.Items)))
+		}
+	}
 	if (lp.Kind == "tags" || lp.Kind == "referrers") && lp.Last == "" && lp.FailAtPage == 0 && r.Chance(0.25) {
 		lp.Helper = true
 	}
@@ -141,6 +151,14 @@ func (p *listProp) Shrink(raw json.RawMessage) []json.RawMessage {
 		c.Items = append(append([]string{}, lp.Items[:i]...), lp.Items[i+1:]...)
 		if len(lp.ATypes) == len(lp.Items) {
 			c.ATypes = append(append([]string{}, lp.ATypes[:i]...), lp.ATypes[i+1:]...)
+		}
+		c.Untag = nil
+		for _, u := range lp.Untag {
+			if u < i {
+				c.Untag = append(c.Untag, u)
+			} else if u > i {
+				c.Untag = append(c.Untag, u-1)
+			}
 		}
 		b, _ := json.Marshal(c)
 		out = append(out, b)
@@ -249,6 +267,7 @@ func (p *listProp) run(rc *RunCtx, lp *ListParams, info *RunInfo) *Verdict {
 
 	var res simrt.Result
 	var ociErr error
+	var staleV *Verdict
 	main := func() {
 		switch lp.Kind {
 		case "tags":
@@ -299,11 +318,94 @@ func (p *listProp) run(rc *RunCtx, lp *ListParams, info *RunInfo) *Verdict {
 				ociErr = err
 				return
 			}
+			// tagged/untagged: how many of lp.Items / lp.Untag are done; untagging: how many were begun
+			tagged, untagging, untagged := 0, 0, 0
+			finished := false
+			ldone := make(chan struct{}, lp.Listers)
+			for l := 0; l < lp.Listers; l++ {
+				simrt.Go(func() {
+					defer func() { ldone <- struct{}{} }()
+					for round := 0; round < 6 && staleV == nil; round++ {
+						last := finished
+						k, u := tagged, untagged
+						var got []string
+						err := s.Tags(ctx, "", func(ts []string) error { got = append(got, ts...); return nil })
+						k2, u2 := tagged, untagging
+						if k2 < len(lp.Items) {
+							k2++ // the Tag under way may be visible already
+						}
+						if err != nil {
+							staleV = violation("unexpected-error", "", "ocitags: listing beside Tag/Untag failed: %v", err)
+							return
+						}
+						if !sort.StringsAreSorted(got) {
+							staleV = violation("wrong-items", "", "ocitags: listing beside Tag/Untag is not sorted: %v", got)
+							return
+						}
+						in := map[string]bool{}
+						for i, t := range got {
+							if i > 0 && got[i-1] == t {
+								staleV = violation("wrong-items", "", "ocitags: listing beside Tag/Untag holds %q twice: %v", t, got)
+								return
+							}
+							in[t] = true
+						}
+						// must: set before the listing began and no removal begun before it ended
+						// may: set (or being set) before it ended and removal not complete before it began
+						must, may := map[string]bool{}, map[string]bool{}
+						for _, t := range lp.Items[:k] {
+							must[t] = true
+						}
+						for _, t := range lp.Items[:k2] {
+							may[t] = true
+						}
+						for _, i := range lp.Untag[:u2] {
+							delete(must, lp.Items[i])
+						}
+						for _, i := range lp.Untag[:u] {
+							delete(may, lp.Items[i])
+						}
+						for t := range must {
+							if !in[t] {
+								staleV = violation("stale-listing", "", "ocitags: Tag(%q) had returned and no Untag of it had begun, a listing started afterwards omits it: %v", t, got)
+								return
+							}
+						}
+						for t := range in {
+							if !may[t] {
+								staleV = violation("stale-listing", "", "ocitags: a listing delivers %q, which was not set (or whose Untag had returned) when it began: %v", t, got)
+								return
+							}
+						}
+						info.Probes["oci_listing_beside_tag_untag"]++
+						if last {
+							return
+						}
+						simrt.Yield("lister")
+					}
+				})
+			}
 			for _, t := range lp.Items {
 				if err := s.Tag(ctx, d, t); err != nil {
 					ociErr = err
-					return
+					break
 				}
+				tagged++
+			}
+			for _, i := range lp.Untag {
+				untagging++
+				if err := s.Untag(ctx, lp.Items[i]); err != nil && !errors.Is(err, errdef.ErrNotFound) {
+					ociErr = err
+					break
+				}
+				untagged++
+			}
+			finished = true
+			for l := 0; l < lp.Listers; l++ {
+				<-ldone
+			}
+			if ociErr != nil {
+				return
 			}
 			callErr = s.Tags(ctx, lp.Last, fn)
 		}
@@ -320,11 +422,18 @@ func (p *listProp) run(rc *RunCtx, lp *ListParams, info *RunInfo) *Verdict {
 		info.Outcome = "setup-skip"
 		return nil
 	}
+	if staleV != nil {
+		return staleV
+	}
 	if lp.Kind == "ocitags" {
+		gone := map[string]bool{}
+		for _, i := range lp.Untag {
+			gone[lp.Items[i]] = true
+		}
 		all := append([]string{}, lp.Items...)
 		sort.Strings(all)
 		for _, t := range all {
-			if lp.Last == "" || t > lp.Last {
+			if (lp.Last == "" || t > lp.Last) && !gone[t] {
 				expected = append(expected, t)
 			}
 		}
